@@ -239,7 +239,7 @@ def run_property(prop, tier, seed, keep=False):
                        "counted non-trivial when it held AND every reachability (cover) witness in it was satisfied (non-vacuous)",
                   obligations=n_oblig, discharged=n_disch,
                   checker_cmd="./check %s --tier %s" % (prop, tier),
-                  trusted_base=cfg.get("trusted", []) + ["rustc/Kani 0.68 MIR->goto translation", "CBMC 6.11 + CaDiCaL", "z3 4.8.12 (mirsym queries)"],
+                  trusted_base=cfg.get("trusted", []) + ["rustc/Kani 0.68 MIR->goto translation", "CBMC 6.11 + CaDiCaL", "z3 (python3-vt wheel) for mirsym queries; cvc5 re-decides a sample of them in the thorough tier"],
                   samples=samples, solver_time_s=round(solver_s, 3),
                   bounds=cfg.get("bounds", ""), outside_claim=cfg.get("outside", ""),
                   explanation=cfg.get("explanation", ""),
